@@ -65,6 +65,7 @@ fn histories(tape: &[u32], st: &mut Stats, cfg: &CaseCfg, max_steps: usize) -> C
     let mut hist: Vec<String> = vec![["FlatEx::parse", "FlatEx::parse_wo_compile", "DeepEx::parse"][start].to_string()];
     let f = &case.facts;
     st.class_if(f.unary_chain2, "unary composition length>=2");
+    st.class_if(f.max_unary_chain > 16, "unary composition longer than 16");
     st.class_if(case.info.max_depth >= 1, "parenthesised group");
     st.class_if(f.operands > 21, ">21 operands");
     st.class_if(f.operands > 64, ">64 operands");
@@ -165,6 +166,9 @@ fn convert_histories(tape: &[u32], st: &mut Stats) -> CaseResult {
 }
 fn convert_histories_long(tape: &[u32], st: &mut Stats) -> CaseResult {
     histories(tape, st, &cfg_long(), 4)
+}
+fn convert_histories_towers(tape: &[u32], st: &mut Stats) -> CaseResult {
+    histories(tape, st, &super::c01::tower_cfg(), 6)
 }
 
 // ---------------------------------------------------------------------------------------------
@@ -367,6 +371,11 @@ pub fn def() -> PropDef {
                 name: "convert_histories_long",
                 rule: "as convert_histories with 1-100 operands (long one-level chains, nests), 0-4 steps; non-trivial = >=2 changes of form and >21 operands",
                 kind: Kind::Tape { len: 2500, quick: 3_000, thorough: 150_000, f: convert_histories_long },
+            },
+            SubCheck {
+                name: "convert_histories_towers",
+                rule: "as convert_histories with 1-6 operands where about one node in fifteen carries a tower of 14-43 unary operators (a node of either form stores 16 inline), 0-6 steps; non-trivial as convert_histories",
+                kind: Kind::Tape { len: 900, quick: 8_000, thorough: 400_000, f: convert_histories_towers },
             },
             SubCheck {
                 name: "listings",
